@@ -100,13 +100,16 @@ def numconsts():
     rej = one((n for n in ast.walk(fn) if isinstance(n, ast.If)
                and ast.unparse(n.test) == "val is None or val in (float('inf'), float('-inf'))"),
               "`if val is None or val in (inf, -inf)` range check of DimensionValue")
-    tail = [ast.unparse(x) for x in rej.body[-2:]]
-    if tail != ["self.wellformed = False", "return"] or rej.orelse:
-        raise Refused("DimensionValue range check does not reject (wellformed = False; return): %r" % tail)
+    body_txt = [ast.unparse(x) for x in rej.body]
+    if body_txt[-1] != "return" or not any(x.startswith("self._log.error(") for x in body_txt) or rej.orelse:
+        raise Refused("DimensionValue range check does not reject (log.error; return): %r" % body_txt)
+    # nothing is stored before the check: self._value is assigned after it
+    stmts = list(ast.walk(fn))
+    assign = one((n for n in stmts if isinstance(n, ast.Assign) and ast.unparse(n.targets[0]) == "self._value"),
+                 "self._value = val")
+    if assign.lineno < rej.lineno or ast.unparse(assign.value) != "val":
+        raise Refused("self._value is assigned before the range check")
     b.append("Definition num_reject_nonfinite : bool := true.")
-    # nothing is stored before the last check: the assignments follow the range check
-    stores = [ast.unparse(x) for x in fn.body if False]
-    del stores
 
     # serialize.py: _strip_zeros, zero-unit list, type tuple, leading-zero surgery
     stree = ast.parse(src("serialize.py"))
